@@ -397,6 +397,11 @@ class BindContextSupplicant(BindContextBase):
 
         idx = accept._pkt.payload[:2]  # HACK assumes all idx same
 
+        if confirm_code is None and idx not in ("00", "21"):
+            # a 1-byte Confirm can only be 00 or 21: for any other idx (e.g. a CTL accepting
+            # a thermostat into zone 01) Confirm the (first) accepted code, as those devices do
+            confirm_code = accept._pkt.payload[2:6]  # type: ignore[assignment]
+
         cmd = Command.put_bind(
             I_, self._dev.id, confirm_code, dst_id=accept.src.id, idx=idx
         )
